@@ -267,6 +267,7 @@ _OPERATOR_EXPR = {
 
 
 class Interp:
+    UNHANDLED: list = []        # (statement kind, function, top-level function, line) of every statement no handler exists for
     """analyse one entry function"""
 
     MAX_DEPTH = 4
@@ -445,7 +446,14 @@ class Interp:
     def exec_stmt(self, s, st, fi, depth):
         m = getattr(self, "s_" + type(s).__name__, None)
         if m is None:
+            # a statement form the interpreter does not model: everything it may assign becomes unknown (sound), and the run is
+            # recorded so that no VIOLATION is reported for a function that was only partly read (see __main__.analyse)
             self.notes.append(f"unhandled statement {type(s).__name__} at {fi.qualname}:{s.lineno}")
+            top = self._stack[0][0] if self._stack else fi
+            Interp.UNHANDLED.append((type(s).__name__, getattr(fi, "qualname", "?"), getattr(top, "qualname", "?"), getattr(s, "lineno", 0)))
+            for sub in ast.walk(s):
+                if isinstance(sub, ast.Name) and isinstance(sub.ctx, ast.Store):
+                    st.env[sub.id] = Form.atom(("opaque", f"{sub.id} after unmodelled {type(s).__name__}@{getattr(s, 'lineno', 0)}"))
             return
         m(s, st, fi, depth)
 
